@@ -123,6 +123,16 @@ pub fn run_case(ctx: &Ctx, case: &Value, tag: usize, rep: &mut Report, mb: &mut 
     let Ok(resp) = ModelBatch::run_raw(&ctx.model_exe, &reqs) else { rep.fail("model", "c07:model-driver", "model driver failed".into(), case.clone()); return; };
     if resp[0] != "ok" { rep.fail("model", "c07:schema-not-understood", format!("Lean validator cannot read the schema: {}", resp[0]), case.clone()); return; }
     let valid: Vec<&JV> = cands.iter().zip(resp.iter().skip(1)).filter(|(_, r)| r.as_str() == "1").map(|(c, _)| c).collect();
+    // cross-validation of the specification itself (thorough tier): (schema, instance, S5 verdict) triples
+    // for an independent validator (python jsonschema), see tools/crosscheck_s5.py
+    if let Ok(path) = std::env::var("LLGV_S5_DUMP") {
+        use std::io::Write;
+        if let Ok(mut f) = std::fs::OpenOptions::new().create(true).append(true).open(&path) {
+            for (c, r) in cands.iter().zip(resp.iter().skip(1)) {
+                let _ = writeln!(f, "{}", json!({"schema": schema, "instance": js::serialize(c, 0), "lean": r.as_str() == "1"}));
+            }
+        }
+    }
     rep.count_n("instances.generated", cands.len() as u64);
     rep.count_n("instances.valid", valid.len() as u64);
     mb.push(reqs[0].clone(), "ok".into(), tag);
